@@ -14,7 +14,8 @@ def gen_atomic_op(rng, nobj):
     return "a%d.%s.%d" % (a, k, v)
 
 
-ALL = ("spawn", "join", "yield", "park", "atomic", "rand", "reset", "panic", "sem", "mutex", "rwlock")
+ALL = ("spawn", "join", "yield", "park", "atomic", "rand", "reset", "panic", "sem", "mutex", "rwlock", "condvar", "chan", "barrier", "once")
+BASIC = ("spawn", "join", "yield", "park", "atomic", "rand", "reset", "panic", "sem", "mutex", "rwlock")
 
 
 def gen_program(rng, max_bodies=4, max_ops=6, wild=False, features=("spawn", "join", "yield", "park", "atomic", "rand", "reset", "panic")):
@@ -28,7 +29,7 @@ def gen_program(rng, max_bodies=4, max_ops=6, wild=False, features=("spawn", "jo
             sems.append(len(objl))
             objl.append("s%d:%s" % (rng.choice([0, 1, 1, 2, 3]), rng.choice("fu")))
     if wild:
-        features = tuple(f for f in features if f not in ("mutex", "rwlock"))
+        features = tuple(f for f in features if f not in ("mutex", "rwlock", "once", "condvar"))
     if "mutex" in features:
         for _ in range(rng.randint(1, 2)):
             mutexes.append(len(objl))
@@ -37,8 +38,30 @@ def gen_program(rng, max_bodies=4, max_ops=6, wild=False, features=("spawn", "jo
         for _ in range(rng.randint(1, 2)):
             rwlocks.append(len(objl))
             objl.append("w")
+    condvars, chans, barriers, onces = [], [], [], []
+    if "condvar" in features and mutexes:
+        condvars.append(len(objl))
+        objl.append("v")
+    if "chan" in features:
+        for _ in range(rng.randint(1, 2)):
+            chans.append(len(objl))
+            objl.append("c%s" % rng.choice(["u", "0", "1", "1", "2"]))
+            objl.append("e")
+    if "barrier" in features:
+        barriers.append(len(objl))
+        objl.append("b%d" % rng.choice([1, 2, 2, 3]))
+    if "once" in features and nb >= 2:
+        onces.append(len(objl))
+        objl.append("o")
+        objl.append("m")
     objs = ",".join(objl)
     sync_w = 0.45 if (sems or mutexes or rwlocks) else 0.0
+    new_w = 0.3 if (condvars or chans or barriers or onces) else 0.0
+    closure_body = nb - 1 if onces else None
+    rx_body = rng.randrange(nb) if chans else None
+    if rx_body == closure_body:
+        rx_body = 0
+    spawned = set()
     bodies = []
     for b in range(nb):
         ops = []
@@ -47,8 +70,76 @@ def gen_program(rng, max_bodies=4, max_ops=6, wild=False, features=("spawn", "jo
         held = []          # guards certainly held (taken by a blocking lock)
         maybe = []         # objects on which a try-lock was attempted (a guard may be held)
         n = rng.randint(0, max_ops)
+        dropped_tx = set()
+        dropped_rx = set()
         for _ in range(n):
             r = rng.random()
+            if b == closure_body:
+                # the closure runs while the caller holds the Once's mutex and possibly other guards: only operations
+                # that cannot panic by themselves
+                k = rng.random()
+                if k < 0.3:
+                    ops.append(gen_atomic_op(rng, nobj))
+                elif k < 0.5:
+                    ops.append("yd")
+                elif k < 0.6:
+                    ops.append("rn")
+                elif k < 0.7 and sems:
+                    ops.append(rng.choice(["sr%d.1", "st%d.1", "sv%d"]) % rng.choice(sems))
+                elif k < 0.8 and condvars:
+                    ops.append(rng.choice(["cn%d", "ca%d"]) % rng.choice(condvars))
+                elif k < 0.85 and "panic" in features:
+                    ops.append("pn")
+                elif k < 0.9:
+                    ops.append("ut0")
+                else:
+                    ops.append("ic%d" % rng.choice(onces))
+                continue
+            if rng.random() < new_w:
+                kinds = (["cv"] * 2 if condvars else []) + (["chan"] * 3 if chans and b != closure_body else []) + (["bar"] if barriers else []) + (["once"] if onces and b != closure_body else [])
+                if not kinds:
+                    ops.append("yd")
+                    continue
+                kind = rng.choice(kinds)
+                if kind == "cv":
+                    cv = rng.choice(condvars)
+                    free_m = [m_ for m_ in mutexes if m_ not in held and m_ not in maybe]
+                    if free_m and rng.random() < 0.4:
+                        m_ = rng.choice(free_m)
+                        ops.extend(["lk%d" % m_, "cw%d.%d" % (cv, m_), "ul%d" % m_])
+                        continue
+                    if held and rng.random() < 0.5 and any(g in mutexes for g in held):
+                        ops.append("cw%d.%d" % (cv, rng.choice([g for g in held if g in mutexes])))
+                    elif wild and rng.random() < 0.2:
+                        ops.append("cw%d.%d" % (cv, rng.choice(mutexes)))
+                    else:
+                        ops.append(rng.choice(["cn%d", "cn%d", "ca%d"]) % cv)
+                elif kind == "chan":
+                    ch = rng.choice(chans)
+                    slot = b % 3
+                    rr = rng.random()
+                    if b == rx_body and rr < 0.45 and ch not in dropped_rx:
+                        k = rng.choice(["rc", "rc", "tc", "dr"] if rng.random() < 0.25 else ["rc", "rc", "tc"])
+                        if k == "dr":
+                            dropped_rx.add(ch)
+                        ops.append("%s%d" % (k, ch))
+                    elif (ch, slot) not in dropped_tx:
+                        k = rng.choice(["sd", "sd", "sd", "ts", "dt"])
+                        if k == "dt":
+                            dropped_tx.add((ch, slot))
+                            ops.append("dt%d.%d" % (ch, slot))
+                        else:
+                            ops.append("%s%d.%d.%d" % (k, ch, slot, rng.randrange(1, 100)))
+                    elif wild:
+                        ops.append("sd%d.%d.7" % (ch, slot))
+                    else:
+                        ops.append("yd")
+                elif kind == "bar":
+                    ops.append("bw%d" % rng.choice(barriers))
+                else:
+                    o = rng.choice(onces)
+                    ops.append(rng.choice(["co%d.%d" % (o, closure_body), "co%d.%d" % (o, closure_body), "ic%d" % o]))
+                continue
             if rng.random() < sync_w:
                 kind = rng.choice((["sem"] if sems else []) + (["mutex"] * 2 if mutexes else []) + (["rwlock"] * 2 if rwlocks else []))
                 if kind == "sem":
@@ -89,9 +180,15 @@ def gen_program(rng, max_bodies=4, max_ops=6, wild=False, features=("spawn", "jo
                     else:
                         ops.append("yd")
                 continue
-            if "spawn" in features and b + 1 < nb and r < 0.22:
-                ops.append("sp%d" % rng.randint(b + 1, nb - 1))
-                handles += 1
+            if "spawn" in features and b + 1 < nb and r < 0.22 and b != closure_body:
+                cands = [j for j in range(b + 1, nb) if j != closure_body and (not chans or j not in spawned)]
+                if cands:
+                    j = rng.choice(cands)
+                    spawned.add(j)
+                    ops.append("sp%d" % j)
+                    handles += 1
+                else:
+                    ops.append("yd")
             elif "join" in features and r < 0.40 and (handles > len(joined) or wild):
                 if wild and (rng.random() < 0.3 or handles <= len(joined)):
                     ops.append("jn%d" % rng.randrange(0, 3))
